@@ -159,7 +159,7 @@ def money_history(E, cfg):
         if stop:
             break
     # unwind everything: behaviour as before the first registration
-    while ref:
+    for _ in range(len(ref)):
         _apply_money_op(E, Money, convs, ref, 'unreg', ref[-1])
     _check_state(E, Money, convs, ref, a, eur, usd, 'unwound')
     if cfg.get('canary'):
